@@ -43,12 +43,18 @@ CHECKS = {
  "C14": ("exploration", "property-based component comparison through the verif-hooks wrapper (proptest); known finding recorded",
          "Generated URIs are mapped through the hooked private function the clients call; scheme, default port 631 for ipp and ipps, and byte-identical user-info/host/path/query are asserted. The ipps->443 default is a recorded known finding (exact signature only).",
          "The hook exposes the function unchanged; live dialing is covered in C11.", "DESIGN.md 3/C14"),
+ "C15": ("exploration", "metamorphic cost relations over parameterised input families under a counting global allocator (fixed + proptest-generated families)",
+         "Deterministic primary oracle: bytes requested / allocation calls / peak live bytes counted by a global allocator in the harness binary; per doubling they may grow by at most x2.6, absolutely by at most 1024 (peak 512) bytes per input byte, and the cost per byte must not depend on nesting depth (depth 3 vs depth 120 at equal size). Coarse CPU-time backstop for allocation-free blow-ups. Families are escalated to 256 KiB quick / 1 MiB thorough (4 MiB for three).",
+         "CPU cost without allocation is only bounded by the x16/x40 per-byte backstop; nesting deeper than the parser's 128-level bound is rejected early and therefore trivial.", "DESIGN.md 3/C15"),
  "C16": ("exploration", "complete enumeration of the code spaces against registry tables embedded in the harness",
          "Finite domain enumerated completely: all 65536 status codes and operation ids, all 256 tag bytes, small enums; exhaustive: true.",
          "Registry tables typed from RFC 8010/8011, PWG 5100.1 and the CUPS operation list.", "DESIGN.md 3/C16"),
  "C17": ("exploration", "property-based truth-table oracle over generated responses (in memory and via reference-encode -> parse)",
          "Responses over status x state x reasons x unrelated groups judged against the truth table of the statement; silent where the statement is silent.",
          "State/reasons only in the first printer-attributes group.", "DESIGN.md 3/C17"),
+ "C20": ("exploration", "property-based serde_json round trip over generated model messages (separate binary, ipp built with feature serde)",
+         "Generated messages of C01's domain (utc_dir widened to any char) are serialised and deserialised; content must be identical without identifying one-element sets, re-serialisation must give the same JSON document, payload must be empty; bare IppAttributes and IppValue too.",
+         "JSON is the carrier format.", "DESIGN.md 3/C20"),
  "C19": ("exploration", "model-based testing of add-histories (ordered list-of-groups model, invariant after every step) + traversal oracle (proptest)",
          "Histories of up to 39 adds from empty / constructor / parser-produced starts; the model is compared after every step; traversal order and termination for generated values.",
          "Four group kinds.", "DESIGN.md 3/C19"),
@@ -56,9 +62,7 @@ CHECKS = {
 NOT_YET = {
  "C11": "check not built yet (loopback HTTP server harness in progress)",
  "C12": "check not built yet (TLS matrix in progress)",
- "C15": "check not built yet (counting allocator harness in progress)",
  "C18": "check not built yet (ipputil end-to-end harness in progress)",
- "C20": "check not built yet (serde binary in progress)",
 }
 extra = json.load(open(os.path.join(ROOT, "tools", "manifest_extra.json"))) if os.path.exists(os.path.join(ROOT, "tools", "manifest_extra.json")) else {}
 CHECKS.update({k: tuple(v) for k, v in extra.get("checks", {}).items()})
